@@ -63,7 +63,7 @@ VARIANTS = ["target", "perms", "type", "name", "drop", "add", "swap_target", "sw
 
 def gen_names(rng, n, allow_bad):
     names = set()
-    base = [b"a", b"ab", b"a.b", b"a-", b"a0", b"a b", b"a\n", b"A", b"", b"\xff", b"a\x80", b".", b"-", b"0", b"Ab", b"B"]
+    base = [b"a", b"ab", b"a.b", b"a-", b"a0", b"a b", b"a\n", b"A", b"", b"\xff", b"a\x80", b".", b"-", b"0", b"Ab", b"B", "e\u0301".encode(), "\u212b".encode(), "\uf900".encode(), "cafe\u0301".encode()]
     while len(names) < n:
         r = rng.random()
         if r < 0.35 and names:
